@@ -250,13 +250,14 @@ def _r1_scalar_decide(ctx, f, store, tally, loc, rowname, D, rets, ok, other, co
     return True
 
 
-def consensus_model(ctx):
+def consensus_model(ctx, full=True):
     """Molecule.get_consensus run by the abstract interpreter (numpy included) on model molecules: every multiset of one to three fragments whose calls at two
     positions are A / C / N / none, in two insertion orders, plus a fragment whose extraction fails (ValueError).  Required: a position is reported iff one
     base was called by strictly more fragments than any other (N calls never vote), with that base; the failing fragment is skipped, the others still count.
     (ok, cases, witness) / None when outside the interpreted subset.  Cached per run."""
-    if hasattr(ctx, '_consensus_model'):
+    if hasattr(ctx, '_consensus_model') and (getattr(ctx, '_consensus_model_full', False) or not full):
         return ctx._consensus_model
+    ctx._consensus_model_full = full
     from ..consteval import Raised, module_scope
     ctx._consensus_model = None
     try:
@@ -291,8 +292,21 @@ def consensus_model(ctx):
     n = 0
     sc = dict(cls.scope)
     sc['__class__'] = cls
-    family1 = [(size, combo) for size in (1, 2, 3) for combo in itertools.combinations_with_replacement(sorted(k_ for k_ in frs if k_.startswith('f')), size)]
-    family2 = [(size, combo) for size in (2, 3, 4) for combo in itertools.combinations_with_replacement(sorted(k_ for k_ in frs if k_.startswith('q')), size)]
+    from ..consteval import run_function as _run
+
+    def run_function(fn, args, **kw):
+        # an exception of the analysed code itself (not of a construct the interpreter lacks) is an answer, and not the expected one
+        try:
+            return _run(fn, args, **kw)
+        except Raised as r_:
+            if r_.name in ('ValueError', 'IndexError', 'KeyError', 'ZeroDivisionError', 'OverflowError', 'StopIteration'):
+                return {('raises', r_.name): str(r_)[:80]}
+            raise
+    family1 = [(size, combo) for size in ((1, 2, 3) if full else (1, 2)) for combo in itertools.combinations_with_replacement(sorted(k_ for k_ in frs if k_.startswith('f')), size)]
+    family2 = [(size, combo) for size in ((2, 3, 4) if full else (3, 4)) for combo in itertools.combinations_with_replacement(sorted(k_ for k_ in frs if k_.startswith('q')), size)]
+    if not full:
+        family1 = family1[::2]
+        family2 = family2[::2]
     # third family: wide molecules (more positions than any table size a restructured tally may start with): three fragments over 700 positions
     wide = {'wA': {('c', p_): ('A', 30) for p_ in range(700)}, 'wB': {('c', p_): (('A', 'C', 'G')[p_ % 3], 30) for p_ in range(700)}, 'wC': {('c', p_): (('C', 'A')[p_ % 2], 30) for p_ in range(0, 700, 2)}}
     frs.update(wide)
@@ -317,6 +331,14 @@ def consensus_model(ctx):
                 ctx._consensus_model = (False, n, {'molecule': 'three fragments covering 700 positions', 'first positions whose consensus differs from the strict majority': diff[:5],
                                                    'returned there': [got.get(('c', p_)) for p_ in diff[:5]], 'strict majority there': [want.get(('c', p_)) for p_ in diff[:5]]})
                 return ctx._consensus_model
+        # fourth family: deep molecules (more fragments than a narrow counter type can count): 260 fragments calling A and 10 calling C at one position
+        deep = ['qA40'] * 260 + ['qC10'] * 10
+        n += 1
+        got = run_function(f, [Mol(deep)], env=sc, call_hook=hook, budget=4000000)
+        got = {tuple(k_): v_ for k_, v_ in dict(got).items()}
+        if got != {('c', 1): 'A'}:
+            ctx._consensus_model = (False, n, {'molecule': '260 fragments call A and 10 call C at position 1', 'consensus returned': {k_[1]: v_ for k_, v_ in got.items()}, 'strict majority': {1: 'A'}})
+            return ctx._consensus_model
         for size, combo in family1 + family2:
             if True:
                 for order in ((combo, combo[::-1]) if size > 1 else (combo,)):
@@ -842,6 +864,21 @@ def r8(ctx):
                  f'applied to every fragment', key=f'option-forwarded:{k.arg}', what=f'Fragment.get_consensus alters the option {k.arg} before forwarding it')
     if not bad:
         ctx.emit('C13-R8', True, FRAGMENT, calls[0], f'{n} option(s) forwarded to get_consensus_dictionaries as given', key='option-forwarded')
+
+
+@rule('C13', 'C13-R9', 'the majority vote as a whole, run by the abstract interpreter (numpy values) on model molecules on every check: 1-4 fragments with calls A / C / G / N / none and two '
+                       'qualities, molecules wider than any table and deeper than any narrow counter in the code, a fragment whose extraction fails, a molecule with nothing to report - the '
+                       'consensus is the strict majority, ties and N-only positions are absent, no exception escapes')
+def r9(ctx):
+    f = ctx.fn(MOLECULE, FN)
+    m = consensus_model(ctx, full=False)
+    if m is None:
+        ctx.emit('C13-R9', True, MOLECULE, f, 'Molecule.get_consensus uses constructs outside the interpreted subset: decided by the structural rules only', key='consensus-model', nontrivial=False)
+        return
+    ok, n, wit = m
+    ctx.counters['interpreted_cases'] += n
+    ctx.emit('C13-R9', ok, MOLECULE, f, f'{n} model molecules: the consensus is the strict majority call everywhere' if ok else f'model molecule {wit}', key='consensus-model', witness=wit,
+             what='Molecule.get_consensus: the reported consensus is not the strict majority call (or the call fails) on a model molecule')
 
 
 META = {
